@@ -89,6 +89,27 @@ CHECKS['C19'] = dict(
     note='partial: setuptools / pip are external (model compared with a real build each run); sdist not built in the quick tier; the hypotheses are evaluated on the extracted listing by compiled code, not by the kernel.',
     design='§5 C19')
 
+CHECKS['C13'] = dict(
+    technique='Lean 4 theorems parse_result_local / parse_eq_fresh / parse_sequence / registry_after_parse / parse_deterministic about the parse function of the model (registry cleared, world fresh per parse) + sequences of parses in one process vs fresh processes with different hash seeds (digests through the shipped encoder, subscription registry compared)',
+    text='C13 theorems: the result of a parse in the model is a function of (definitions, dialect, controller, mode, stream) alone, equal to the result in a fresh state for every previous registry/world, for every sequence of jobs; the registry after a parse is exactly the controller\'s registrations. Tied to the code by running permutations, repetitions and mixes of games/versions/modes (with failing parses in between) in one process and comparing every digest and the registry with fresh processes started under different PYTHONHASHSEED values.',
+    note='the process-wide registry is the only shared state modelled; module-level caches of third-party libraries are outside the model; after a container-level failure no summary exists and the registry is not compared; sequences are sampled.',
+    design='§5 C13')
+CHECKS['C14'] = dict(
+    technique='Lean 4 theorems encodable_of_keysOK (+ tuple-key counterexample), step_stdout / playPackets_stdout / play_stdout_empty (no packet writes to standard output in the model), kernel-checked facts printSites_fact / onSetConsumable_unsubscribed_fact / parser_no_dump_fact regenerated from /repo + the CLI run as a subprocess on synthetic battles of every bundled version and recordings (stdout must be exactly one JSON document)',
+    text='C14 theorems: every summary term whose dict keys are str/int/float/bool/None is encodable for every nesting; the model world\'s stdout is unchanged by every packet, hence empty after every stream in both modes; the regenerated list of print call sites contains only the CLI\'s final print and callbacks no controller subscribes. Tied to the code by running replay_parser.py on battles whose entity ids include every integer literal of the source and on recordings, and by passing every summary through the shipped encoder and the model\'s encodable.',
+    note='partial: the encoder itself (json + DefaultEncoder) is external; what the summary contains per version is observed, not proved; print-site list is an ast scan (dynamic writes via sys.stdout would be seen only by the subprocess runs).',
+    design='§5 C14')
+CHECKS['C15'] = dict(
+    technique='Lean 4 theorems decode_consumes (every successful read leaves a suffix), nested_loop_terminates / decodeAll_bound (element loop ends within the remaining length when no element type is zero-width), framing_linear, lenient_total + NoZeroWidth evaluated on every bundled definition set + corruption campaign on recordings and synthetic battles under RLIMIT_AS and a wall-clock limit + corrupted generated streams through model and implementation',
+    text='C15 theorems: every decoder consumes a prefix; the read-until-exhausted loop of nested updates terminates within len(payload) iterations for every element type that cannot decode from zero bytes (hang detection in the model proves the only non-terminating case is the zero-width one: counterexample theorem); the number of frames is at most len/12; the lenient play loop is total. Tied to the code by NoZeroWidth on all bundled sets, by thousands of corrupted containers/streams parsed in subprocesses (bounded memory and time, lenient + intact container must return a result object), and by model/implementation agreement on corrupted streams.',
+    note='partial: time and memory of CPython / zlib / Cryptodome are runtime behaviour the model cannot exhibit (bounded empirically by rlimits); corruption campaign is sampled.',
+    design='§5 C15')
+CHECKS['C18'] = dict(
+    technique='Lean 4 theorems about a pickle virtual-machine model (restricted_unpickle_safe for every byte string and allow-list, package_unpickle_safe for the shipped allow-list, unrestricted counterexample), import_name_confined, kernel-checked facts allowed_globals_fact / primitive_sites_fact regenerated from /repo + parses under sys.addaudithook (recordings, synthetic battles, crafted pickles in every unpickled argument, hostile version strings) + model VM vs real unpickler on real and crafted payloads',
+    text='C18 theorems: for every byte string, an unpickler with an allow-list only ever locates allow-listed globals, and with the allow-list regenerated from replay_unpack/core/safe_pickle.py only members of the fixed data-class set; the module name handed to import_module always starts with .versions.; the regenerated list of code-executing / file / process call sites equals the reviewed list (no unrestricted pickle.loads, eval, exec, subprocess...). Tied to the code by audit-hook runs: find_class events must be in the data-class set, opens inside the replay/package/interpreter directories, no process events; crafted payloads with a harmless marker callable in each of the 4 unpickled arguments and hostile version strings with an escape target placed outside the package.',
+    note='partial: what a located callable does when called is outside the model (data classes are trusted to be plain); the call-site list is an ast scan, sound only for direct calls; audit events of C extensions doing their own I/O (lxml) are not visible.',
+    design='§5 C18')
+
 PENDING_REASON = 'check not built yet in this revision (planned: see DESIGN.md §5); not claimed until its theorem + correspondence run on the unchanged tree'
 
 
